@@ -172,23 +172,36 @@ func AddStandardFilters(fd FilterDictionary) { //nolint: gocyclo
 	})
 	fd.AddFilter("round", func(n float64, places func(int) int) float64 {
 		pl := places(0)
-		exp := math.Pow10(pl)
 		// round half up; adding 0.5 before taking the floor is off by one for
 		// operands just below .5 (0.49999999999999994 + 0.5 rounds to 1)
-		x := n * exp
-		switch {
-		case math.IsInf(exp, 0) || math.IsInf(x, 0):
-			// more places than a float64 holds: n is exact already
-			return n
-		case exp == 0:
-			// rounding to a magnitude beyond every float64
-			return 0
+		halfUp := func(x float64) float64 {
+			r := math.Floor(x)
+			if x-r >= 0.5 {
+				r++
+			}
+			return r
 		}
-		r := math.Floor(x)
-		if x-r >= 0.5 {
-			r++
+		if pl == 0 {
+			return halfUp(n)
 		}
-		return r / exp
+		if pl < 0 {
+			// to tens, hundreds...: dividing by a power of ten is exact where multiplying by 0.1 is not
+			p := math.Pow10(-pl)
+			if math.IsInf(p, 0) {
+				// rounding to a magnitude beyond every float64
+				return 0
+			}
+			return halfUp(n/p) * p
+		}
+		exp := math.Pow10(pl)
+		// only the fractional part is scaled: the integer part is exact already, and scaling it
+		// loses the low digits of large numbers (9007199254740991 | round: 1)
+		ip, frac := math.Modf(n)
+		if x := frac * exp; !math.IsInf(exp, 0) && !math.IsInf(x, 0) {
+			return ip + halfUp(x)/exp
+		}
+		// more places than a float64 holds: n is exact already
+		return n
 	})
 
 	// sequence filters
